@@ -1071,6 +1071,9 @@ class XsdElement(XsdComponent, ParticleMixin,
                 elem.text = self.fixed
             elif self.default is not None and context.use_defaults:
                 elem.text = self.default
+            elif validation != 'skip' and not xsd_type.content.is_valid(''):
+                # No text means an empty element, that has to be valid for the content type
+                errors.append("empty content is not valid for the element's type.")
 
         else:
             context.level += 1
